@@ -32,13 +32,19 @@ type cfg struct {
 	RT     string `json:"rt"`     // "one": one runtime; "cache-mem": two runtimes sharing one in-memory CompilationCache;
 	//                                   "cache-dir": two runtimes sharing one directory-backed CompilationCache value;
 	//                                   "cache-dir2": two runtimes with two CompilationCache values on the same directory
-	Variants []int  `json:"variants"` // module variant of instance j (len = N); all equal = "same compiled module"
-	Policy   string `json:"policy"`   // "lazy": instance j is instantiated at its first step; "eager": 0,1,2 up front; "eager-rev": 2,1,0 up front
-	Shared   bool   `json:"shared"`   // true: ONE ModuleConfig value (one stdout writer, one mount) is reused for every instance
+	Variants []int  `json:"variants"`        // module variant of instance j (len = N); all equal = "same compiled module"
+	Policy   string `json:"policy"`          // "lazy": instance j is instantiated at its first step; "eager": 0,1,2 up front; "eager-rev": 2,1,0 up front
+	Shape    int    `json:"shape,omitempty"` // module shape 1..4 (guest.go); 0 = 1. All instances of a world have the same shape
+	RefDepth int    `json:"-"`               // length up to which lone references exist for this configuration (set by main)
+	Shared   bool   `json:"shared"`          // true: ONE ModuleConfig value (one stdout writer, one mount) is reused for every instance
 }
 
 func (c cfg) String() string {
-	return fmt.Sprintf("%s/%s/v%v/%s/shared=%v", c.Engine, c.RT, c.Variants, c.Policy, c.Shared)
+	s := fmt.Sprintf("%s/%s/v%v/%s/shared=%v", c.Engine, c.RT, c.Variants, c.Policy, c.Shared)
+	if c.shape() != 1 {
+		s += fmt.Sprintf("/shape%d", c.shape())
+	}
+	return s
 }
 
 type step struct {
@@ -147,7 +153,22 @@ func newHostDirs() *hostDirs {
 
 var ctx = context.Background()
 
-var guestBins = [2][]byte{guestModule(0), guestModule(1)}
+// guestBins[shape-1][variant]
+var guestBins = func() (b [numShapes][2][]byte) {
+	for sh := 1; sh <= numShapes; sh++ {
+		for v := 0; v < 2; v++ {
+			b[sh-1][v] = guestModule(v, sh)
+		}
+	}
+	return
+}()
+
+func (c cfg) shape() int {
+	if c.Shape < 1 {
+		return 1
+	}
+	return c.Shape
+}
 
 type world struct {
 	c        cfg
@@ -257,7 +278,7 @@ func newWorld(c cfg, dirs *hostDirs, loneSlot int) *world {
 				continue
 			}
 			var err error
-			if cm[v], err = rt.CompileModule(ctx, guestBins[v]); err != nil {
+			if cm[v], err = rt.CompileModule(ctx, guestBins[c.shape()-1][v]); err != nil {
 				fatalf("guest module rejected (%s): %v", c, err)
 			}
 		}
